@@ -155,6 +155,10 @@ class Terms:
                     t = t[2][e["i"]]
                 elif t[0] == "bin" and t[1].endswith("WithOverflow") and e["i"] == 0:
                     t = ("bin", t[1][:-len("WithOverflow")], t[2], t[3])
+                elif t[0] == "call" and short(t[1]) in ("<impl [T]>::split_at", "<impl [T]>::split_at_mut") and len(t[2]) == 2 and e["i"] in (0, 1):
+                    # `s.split_at(k)`: (.0, .1) = (&s[..k], &s[k..])
+                    rk = "adt:std::ops::RangeTo::RangeTo" if e["i"] == 0 else "adt:std::ops::RangeFrom::RangeFrom"
+                    t = ("call", "std::ops::Index::index", (t[2][0], ("aggr", rk, (t[2][1],))), t[3])
                 elif (t[0] == "downcast" and t[2] == "Continue" and e["i"] == 0 and t[1][0] == "call"
                       and short(t[1][1]) == "Try::branch" and len(t[1][2]) == 1):
                     tried_ = t[1][2][0]
